@@ -6,8 +6,11 @@ derivative level is divided by the horizon T and passes T on (R17.2); node sampl
 index and the basis evaluated on the knots (R17.3); the B-spline derivative formula has the
 de Boor shape d*(c_{i+1}-c_i)/(xi_{i+d}-xi_i) (R17.3b); pack order of signal values in the p input
 (R17.4 = R01.7); SplineMethod's model guards (R17.5, with C20).
-Not decided (the bulk of the statement): Cox-de Boor / Greville numerics, equality with an
-independent evaluation, SplineMethod == shooting.
+(R17.4 = R01.7); SplineMethod's model guards (R17.5, with C20); Greville points (R17.6); the
+Cox-de Boor recursion of the two basis evaluators as an algebraic identity per level -- weights,
+knot spans, destination rows, level sizes, evaluation point, degree-0 start -- and the enumeration of
+evaluation points on the clamped knot vector (R17.8).
+Not decided: the numeric values (equality with an independent evaluation), SplineMethod == shooting.
 """
 import ast
 
@@ -196,3 +199,157 @@ def r17_5(ctx):
 def r17_7(ctx):
     from .c04 import r04_9
     r04_9(ctx)
+
+
+def _deboor_level(ctx, f, single):
+    """The Cox-de Boor recursion step of one basis evaluator, read from its `for e in range(1, d+1)` loop.
+
+    B_{i,e}(x) = (x - t_i)/(t_{i+e} - t_i) * B_{i,e-1}(x) + (t_{i+e+1} - x)/(t_{i+e+1} - t_{i+1}) * B_{i+1,e-1}(x)
+    is implemented by scattering, for every i of the level, the two products of B_{i,e-1}/(t_{i+e}-t_i) into
+    position i (with x - t_i) and position i-1 (with t_{i+e} - x) of the next, one-shorter, basis vector."""
+    sc = ctx.scope(f)
+    n = ctx.norm(f)
+    knots, d = f.params[-2], f.params[-1]
+    ind = f.params[0]
+    loops = [l for l in f.node.body if isinstance(l, ast.For) and is_call_to(l.iter, "range") and len(l.iter.args) == 2 and isinstance(l.target, ast.Name)]
+    ok = len(loops) == 1 and Norm(None).poly(loops[0].iter.args[0]) == Poly.const(1) and Norm(None).poly(loops[0].iter.args[1]) == expected("%s+1" % d)
+    ctx.check(ok, "%s raises the degree one level at a time, e = 1..d" % f.name, detail="recursion depth", expected="for e in range(1, d+1)", found="; ".join(ast.unparse(l.iter) for l in loops), fi=f)
+    if not ok:
+        return
+    l = loops[0]
+    e = l.target.id
+    local = {}
+    for st in l.body:
+        if isinstance(st, ast.Assign) and len(st.targets) == 1 and isinstance(st.targets[0], ast.Name):
+            local.setdefault(st.targets[0].id, []).append(st)
+    augs = [st for st in l.body if isinstance(st, ast.AugAssign) and isinstance(st.op, ast.Add) and isinstance(st.target, ast.Subscript) and isinstance(st.target.value, ast.Name)]
+    ok = len(augs) == 2 and augs[0].target.value.id == augs[1].target.value.id
+    ctx.check(ok, "%s scatters two products per level" % f.name, detail="recursion terms", expected="basis[a:a+L] += up; basis[a-1:a-1+L] += down", found="; ".join(ast.unparse(a.target) for a in augs), fi=f)
+    if not ok:
+        return
+    B = augs[0].target.value.id
+
+    def row_slice(t):
+        s = t.slice
+        if isinstance(s, ast.Tuple) and len(s.elts) == 2 and isinstance(s.elts[1], ast.Slice) and s.elts[1].lower is None and s.elts[1].upper is None:
+            s = s.elts[0]
+        return s if isinstance(s, ast.Slice) and s.lower is not None and s.upper is not None and s.step is None else None
+    # index set of the level and knot differences
+    ist = [st for nm, sts in local.items() for st in sts if is_call_to(st.value, "DM") and st.value.args and is_call_to(st.value.args[0], "list")]
+    ok = len(ist) == 1
+    lo = hi = None
+    if ok:
+        r = ist[0].value.args[0].args[0]
+        ok = is_call_to(r, "range") and len(r.args) == 2
+        if ok:
+            lo, hi = n.poly(r.args[0]), n.poly(r.args[1])
+            nk = expected("%s.numel()" % knots)
+            ok = lo == expected("%s-%s+1" % (d, e)) and hi == nk - expected("%s+1" % d)
+    ctx.check(ok, "%s: level e combines B_i for i = d-e+1 .. n-d-2" % f.name, detail="support of the level", expected="i = range(d-e+1, knots.numel()-d-1)", found=ast.unparse(ist[0].value) if ist else None, fi=f)
+    if not ok:
+        return
+    iname = ist[0].targets[0].id
+    I = n.poly(ast.Name(id=iname, ctx=ast.Load())) if False else n.poly(ist[0].value)
+    K = lambda idx: Poly.atom("%s[%s]" % (knots, idx))
+    ti, tie = K(I), K(I + Poly.atom(e))
+    Lwant = hi - lo
+    facts = {}
+    for a in augs:
+        sl = row_slice(a.target)
+        v = a.value
+        facts[a] = None
+        if sl is None:
+            continue
+        start, stop = n.poly(sl.lower), n.poly(sl.upper)
+        facts[a] = (start, stop - start, n.poly(v))
+    ok = all(facts[a] is not None for a in augs)
+    ctx.check(ok, "%s: scatter targets are plain row slices" % f.name, detail="scatter", expected="basis[a:b] += term", found="; ".join(ast.unparse(a.target) for a in augs), fi=f)
+    if not ok:
+        return
+    # candidates for the evaluation point as it appears in the products: x itself or x repeated over the rows
+    xs = []
+    for nm, sts in list(local.items()) + [(d_.name, [d_.stmt]) for ds in sc.defs.values() for d_ in ds if d_.kind == "assign" and not sc.within(d_.stmt, l)]:
+        for st in sts:
+            if isinstance(st, ast.Assign) and len(st.targets) == 1 and isinstance(st.targets[0], ast.Name):
+                xs.append((st.targets[0].id, n.poly(st.value)))
+    binv = None
+    up = down = None
+    for a in augs:
+        start, length, val = facts[a]
+        for nm, X in xs:
+            # term == (X - t_i) * B[i] / (t_{i+e} - t_i)   or   (t_{i+e} - X) * B[i] / (t_{i+e} - t_i)
+            for rowsel in ("%s[%s]" % (B, I), "%s[%s,:]" % (B, I)):
+                Bi = Poly.atom(rowsel)
+                try:
+                    den = n._inv(tie - ti, a)
+                except Exception:
+                    continue
+                if val == (X - ti) * Bi * den:
+                    up = (a, nm, start, length)
+                if val == (tie - X) * Bi * den:
+                    down = (a, nm, start, length)
+    ok = up is not None and down is not None and up[0] is not down[0]
+    ctx.check(ok, "%s: the two products are (x - t_i) and (t_{i+e} - x) times B_{i,e-1}/(t_{i+e} - t_i)" % f.name, detail="Cox-de Boor weights (knot span of degree e, same denominator in both terms)",
+              expected="(x-knots[i])*basis[i]/(knots[i+e]-knots[i]) and (knots[i+e]-x)*basis[i]/(knots[i+e]-knots[i])", found="; ".join(str(facts[a][2])[:120] for a in augs), fi=f,
+              sample={"fn": f.name, "terms": [str(facts[a][2])[:160] for a in augs]})
+    if not ok:
+        return
+    ctx.check(up[2] == lo and down[2] == lo - 1, "%s: the (x - t_i) product feeds B_{i,e}, the (t_{i+e} - x) product feeds B_{i-1,e}" % f.name, detail="products scattered to the wrong basis function",
+              expected="rows start at d-e+1 and d-e", found="%s / %s" % (up[2], down[2]), fi=f, sample={"fn": f.name, "starts": [str(up[2]), str(down[2])]})
+    ctx.check(up[3] == Lwant and down[3] == Lwant, "%s: every B_i of the level contributes" % f.name, detail="number of rows scattered differs from the size of the level",
+              expected="L = (n-d-1) - (d-e+1) rows", found="%s / %s" % (up[3], down[3]), fi=f)
+    # the next basis vector is one shorter
+    nb = [st for st in local.get(B, []) if isinstance(st.value, ast.Call) and ast.unparse(st.value.func) in ("MX", "DM", "SX") and st.value.args]
+    ok = len(nb) == 1 and n.poly(nb[0].value.args[0]) == expected("%s.numel()-%s-1" % (knots, e)) and sc.order[nb[0]] < min(sc.order[a] for a in augs)
+    ctx.check(ok, "%s: level e has n-e-1 basis functions, zeroed before the scatter" % f.name, detail="size of the level", expected="basis = MX(knots.numel()-e-1, ...)", found="; ".join(ast.unparse(s) for s in nb), fi=f)
+    # evaluation point
+    xname = up[1]
+    xd = [d_ for d_ in sc.defs.get(xname, []) if d_.kind == "assign"]
+    xv = xd[0].value if len(xd) == 1 else None
+    if xv is not None and is_call_to(xv, "repmat") and isinstance(xv.args[0], ast.Name):
+        okr = n.poly(xv.args[1]) == Lwant or Norm(None).key(xv.args[1]) in [ast.unparse(t.targets[0]) for nm, sts in local.items() for t in sts if n.poly(t.value) == Lwant]
+        ctx.check(okr and ast.unparse(xv.args[2]) == "1", "%s: the evaluation points are repeated once per contributing row" % f.name, detail="broadcast", expected="repmat(x, L, 1)", found=ast.unparse(xv), fi=f)
+        xd = [d_ for d_ in sc.defs.get(xv.args[0].id, []) if d_.kind == "assign"]
+        xv = xd[0].value if len(xd) == 1 else None
+    if single:
+        want = Norm(None).poly(ast.parse("%s[%s+%s]" % (knots, ind, d), mode="eval").body)
+        ok = xv is not None and Norm(None).poly(xv) == want
+        exp = "x = knots[ind+d]"
+    else:
+        tau = f.params[1]
+        ok = xv is not None and Norm(None).poly(xv) == expected("%s[%s+%s]*(1-%s)+%s*%s[%s+%s+1]" % (knots, ind, d, tau, tau, knots, ind, d))
+        exp = "x = knots[ind+d]*(1-tau) + tau*knots[ind+d+1]"
+    ctx.check(ok, "%s evaluates at %s" % (f.name, "the knot itself" if single else "tau between knot ind and ind+1 (tau in [0,1])"), detail="evaluation point", expected=exp, found=ast.unparse(xv) if xv is not None else None, fi=f)
+    # degree-0 start: indicator of the knot span containing x (clamped at the last span)
+    starts = [st for st in walk_no_nested(f.node) if isinstance(st, ast.Assign) and isinstance(st.targets[0], ast.Subscript) and ast.unparse(st.targets[0].value) == B
+              and not sc.within(st, l) and not sc.enclosing_loops(st)]
+    ok = len(starts) == 1 and Norm(None).key(starts[0].targets[0].slice) == Norm(None).key(ast.parse("min(%s+%s, %s.numel()-%s-2)" % (ind, d, knots, d), mode="eval").body)
+    ctx.check(ok, "%s starts from the indicator of span ind (clamped to the last span)" % f.name, detail="degree-0 basis", expected="basis[min(ind+d, n-d-2)] = 1", found="; ".join(ast.unparse(s.targets[0]) for s in starts), fi=f)
+
+
+@rule("R17.8", min_instances=16, desc="Cox-de Boor recursion of the basis evaluators (at a knot and between knots): weights, knot spans, destination rows, level sizes, evaluation point, degree-0 start")
+def r17_8(ctx):
+    P = ctx.prog
+    _deboor_level(ctx, P.function("splines/micro_spline", "eval_basis_knotindex"), True)
+    _deboor_level(ctx, P.function("splines/micro_spline", "eval_basis_knotindex_subgrid"), False)
+    # eval_on_knots: clamped knot vector, every knot (and the requested sub-samples of every span) in order
+    f = P.function("splines/micro_spline", "eval_on_knots")
+    sc = ctx.scope(f)
+    xi, d = f.params[0], f.params[1]
+    kd = [d_ for d_ in sc.defs.get("knots", []) if d_.kind == "assign"]
+    ok = len(kd) == 1 and Norm(None).key(kd[0].value) == Norm(None).key(ast.parse("horzcat(repmat(%s[0],1,%s),%s,repmat(%s[-1],1,%s))" % (xi, d, xi, xi, d), mode="eval").body)
+    ctx.check(ok, "eval_on_knots uses the clamped knot vector (end knots repeated d extra times)", detail="knot vector", expected="[xi0]*d + xi + [xiN]*d", found=ast.unparse(kd[0].value) if kd else None, fi=f)
+    ev = [c for c in walk_no_nested(f.node) if isinstance(c, ast.Call) and isinstance(c.func, ast.Name) and c.func.id in ("eval_basis_knotindex", "eval_basis_knotindex_subgrid")]
+    ok = len(ev) == 2
+    if ok:
+        loops = [sc.enclosing_loops(c) for c in ev]
+        ok = all(len(lp) == 1 and isinstance(lp[0][0], ast.Name) for lp in loops) and loops[0][0][2] is loops[1][0][2]
+        if ok:
+            i = loops[0][0][0].id
+            it = loops[0][0][1]
+            # the clamped vector has len(xi)+2d entries (checked above), so knots.numel()-2*d is the number of knots
+            ok = is_call_to(it, "range") and len(it.args) == 1 and Norm(None).poly(it.args[0]) == expected("knots.numel()-2*%s" % d)
+            for c in ev:
+                ok = ok and ast.unparse(c.args[0]) == i and ast.unparse(c.args[-2]) == "knots" and ast.unparse(c.args[-1]) == d
+    ctx.check(ok, "eval_on_knots evaluates the basis at every knot index in order, with the full knot vector and degree", detail="enumeration of evaluation points",
+              expected="for i in range(len(xi)): eval_basis_knotindex(i, knots, d) [+ sub-samples of span i]", found="; ".join(ast.unparse(c) for c in ev), fi=f)
